@@ -80,59 +80,59 @@ func TestPlan(t *testing.T) {
 	case "C07", "C11", "C15":
 		// the binary leg of the formatter properties: `spok --fmt` on generated files
 		p.Rule = "binary leg: generated spokfiles (random layouts, comments in every position, side-effect-free loading) formatted in place by `spok --fmt` in the sandbox; the file afterwards is parsed in-process and judged by the same projection as the in-process leg (C11: a second --fmt leaves it byte-identical). Non-trivial: the file changed; distinct by source"
-		binShards("^TestFmtBinary$", 8, 40, 16, 600)
+		binShards("^TestFmtBinary$", 8, 40, 32, 1500)
 		p.Shards = append(p.Shards, ev.ShardSpec{Name: "fmtboundary-0", Test: "^TestFmtBoundary$", TimeoutS: 900})
 	case "C06":
 		p.Rule = "binary leg: generated spokfiles (random layouts, comments, lines around 64 KiB) are handed to the real CLI as a file; what `spok --fmt` writes back is the rendering of the tree the CLI built, and must equal the rendering of the tree the parser builds from the same text in-process (so reading the file — encoding, line ends, long lines — loses or alters nothing). Non-trivial: the file changed; distinct by source"
-		binShards("^TestFmtBinary$", 8, 40, 16, 600)
+		binShards("^TestFmtBinary$", 8, 40, 32, 1500)
 		p.Shards = append(p.Shards, ev.ShardSpec{Name: "fmtboundary-0", Test: "^TestFmtBoundary$", TimeoutS: 900})
 	case "C04":
 		p.Rule = "binary leg: one task with literal and glob dependencies; the digest spok records in .spok/cache.json after a run from a fresh cache must be the same however spok is pointed at the project (from the project, a nested directory, --spokfile relative / absolute from the project, its parent, a sibling directory; project directories with odd names), must change when a dependency is edited, must not change when another file is, and must return when the edit is undone"
-		binShards("^TestDigestBinary$", 8, 30, 16, 300)
+		binShards("^TestDigestBinary$", 8, 30, 32, 800)
 	case "C18":
 		p.Level = "fault_enumeration"
 		p.Rule = "binary leg: a task whose literal dependencies are regular / empty / directory / missing / dangling link / link / unreadable (mode 0) files in every mixture of up to 6, run through the CLI as an unprivileged user under {plain, --force, --json, --quiet}: spok never dies (signal, panic); with an unopenable dependency and no --force it stops with a message, exits non-zero and does not run the task; otherwise it succeeds"
-		binShards("^TestHashBinary$", 8, 50, 16, 500)
+		binShards("^TestHashBinary$", 8, 50, 32, 1500)
 	case "C01", "C02":
 		// the binary leg of the cache properties: incremental runs through the real CLI
 		p.Rule = "binary leg: programs of 1-3 tasks (no / literal / glob file dependency, task dependencies, selected by name or as the default task) run 2-6 times through the CLI under {plain, --json, --quiet, --debug, --json --quiet} from the project root or a nested directory, with edits of dependency files in between; the side-effect log must show a task running exactly when it has no file dependency, never ran, or a file it depends on was edited since its last run"
-		binShards("^TestSkipBinary$", 8, 40, 16, 500)
+		binShards("^TestSkipBinary$", 8, 40, 32, 1500)
 		p.Shards = append(p.Shards, ev.ShardSpec{Name: "skiptemplates-0", Test: "^TestSkipTemplates$", TimeoutS: 900})
 	case "C08":
 		// the binary leg of C08: the CLI reports exactly the parser's located error for the file's text
 		p.Rule = "binary leg: permissive-grammar texts (with blank / whitespace-only lines added in front or behind) that do not parse are written as a spokfile; `spok --show` and `spok --fmt` must terminate, exit non-zero without a Go panic and print the very error the parser gives for that text (same line number, same quoted line)"
-		binShards("^TestErrBinary$", 8, 60, 16, 800)
+		binShards("^TestErrBinary$", 8, 60, 32, 2000)
 	case "C03":
 		// the binary leg of C03: the selected task comes from the command line, from the default task or from `--clean`
 		p.Rule = "binary leg: graphs on 1-4 tasks (cyclic and acyclic, optional undefined dependency) where the first task is selected by name, implicitly as the default task (bare `spok`) or as the user-defined clean task (`spok --clean`), with and without --force/--json/--quiet; the side-effect log must show the selected task's closure exactly once, dependencies first, or an error and no command at all"
-		binShards("^TestGraphBinary$", 8, 50, 16, 600)
+		binShards("^TestGraphBinary$", 8, 50, 32, 2000)
 		p.Shards = append(p.Shards, ev.ShardSpec{Name: "graphtemplates-0", Test: "^TestGraphTemplates$", TimeoutS: 900})
 	case "C05":
 		// output globs through the CLI: --clean removes exactly the files the pattern denotes
 		p.Rule = "binary leg: project trees x spokfiles whose outputs are glob patterns only (incl. patterns whose matches are string-prefix siblings such as bin/app and bin/app.sha256); `spok --clean` must remove exactly the files the reference matcher says each pattern denotes"
-		binShards("^TestCleanGlobs$", 8, 40, 16, 500)
+		binShards("^TestCleanGlobs$", 8, 40, 32, 1500)
 		// dependency globs through the CLI: which edits make a task run again
 		p.Rule += "; and the incremental-run leg of C01/C02 (programs with glob dependencies, spokfile optionally a symbolic link into another directory, optionally run from elsewhere with --spokfile, files of the same names edited outside the project): a task runs again exactly when a file its pattern denotes was edited"
 		prefix = "binskip"
-		binShards("^TestSkipBinary$", 8, 40, 16, 400)
+		binShards("^TestSkipBinary$", 8, 40, 32, 1000)
 		p.Shards = append(p.Shards, ev.ShardSpec{Name: "skiptemplates-0", Test: "^TestSkipTemplates$", TimeoutS: 900})
 	case "C14":
 		// the binary leg of C14: --force with explicitly and implicitly selected tasks (default task, clean task)
 		p.Rule = "binary leg: programs of 1-3 tasks (file dependencies, task dependencies) run once so that every task is cached, then run with --force selected by name, through the default task (`spok --force`) or through a user-defined clean task (`spok --clean --force`), optionally with --json/--quiet; every task of the closure must execute again and none be reported skipped"
-		binShards("^TestForceBinary$", 8, 40, 16, 400)
+		binShards("^TestForceBinary$", 8, 40, 32, 1500)
 	case "C13":
-		binShards("^TestVars$", 16, 150, 16, 1300)
+		binShards("^TestVars$", 16, 150, 32, 3000)
 		p.Shards = append(p.Shards, ev.ShardSpec{Name: "inprocess-0", Test: "^TestVarsInProcess$", TimeoutS: 600})
 	case "C09":
-		binShards("^TestFail$", 16, 60, 16, 1300)
+		binShards("^TestFail$", 16, 60, 32, 4000)
 	case "C20":
-		binShards("^TestReport$", 16, 40, 16, 1000)
+		binShards("^TestReport$", 16, 40, 32, 3000)
 	case "C19":
-		binShards("^TestWrite$", 16, 80, 16, 1500)
+		binShards("^TestWrite$", 16, 80, 32, 3000)
 		p.Shards = append(p.Shards, ev.ShardSpec{Name: "writetemplates-0", Test: "^TestWriteTemplates$", TimeoutS: 900})
 	case "C10":
 		p.Level = "fault_enumeration"
-		binShards("^TestKill$", 16, 25, 16, 350)
+		binShards("^TestKill$", 16, 25, 32, 1200)
 		p.Shards = append(p.Shards, ev.ShardSpec{Name: "prefixes-0", Test: "^TestKillPrefixes$", TimeoutS: 3600})
 		sc := ev.RangeShards("syscalls", "^TestKillSyscalls$", 48, 1, nil)
 		for i := range sc {
@@ -140,7 +140,7 @@ func TestPlan(t *testing.T) {
 		}
 		p.Shards = append(p.Shards, sc...)
 	case "C12":
-		binShards("^TestClean$", 16, 60, 16, 1300)
+		binShards("^TestClean$", 16, 60, 32, 3000)
 		p.Shards = append(p.Shards, ev.ShardSpec{Name: "cleantemplates-0", Test: "^TestCleanTemplates$", TimeoutS: 900})
 	case "C17":
 		p.CrashIsViolation = true
@@ -154,7 +154,7 @@ func TestPlan(t *testing.T) {
 		p.Shards = append(p.Shards, sh...)
 		nb, cb := 8, 40
 		if ev.Thorough() {
-			nb, cb = 16, 300
+			nb, cb = 32, 1500
 		}
 		bs := ev.RapidShards("binary", "^TestFindBinary$", nb, cb, nil)
 		p.Shards = append(p.Shards, bs...)
